@@ -134,6 +134,9 @@ func execStack[E any](c stackCase, cd lib.Codec[E]) core.Result {
 		case "array":
 			// the Go array stays the caller's: it is overwritten right after the call (a scratch buffer reused)
 			arg := encAll(cd, c.Init)
+			if len(arg) == 0 && len(c.Ops)%2 == 0 {
+				arg = nil // an empty Go array comes as an allocated empty one or as nil, in turn
+			}
 			st = class.MakeFromArray(arg)
 			for i := range arg {
 				arg[i] = cd.Enc(-5)
